@@ -22,11 +22,11 @@ type obsInfo struct {
 	// event; gateCtl gives the fixed control flag of a variant of the split form
 	gates   []*ssa.Function
 	gateCtl map[*ssa.Function]bool
-	member   *ssa.Function // IsInSnapshotMarker
-	skipWin  *ssa.Function // isBeforeSkipWindow
-	need     *ssa.Function // needCatchup: the (uint64) bool helper the gate consults directly
-	persist  *ssa.Function // checkPersistSeqNo: the (uint64) bool helper polled in a loop by the gate or its wait helper
-	waitFn   *ssa.Function // when there is no such helper: the function under the gate whose sleeping loop tests the persistence condition in line
+	member  *ssa.Function // IsInSnapshotMarker
+	skipWin *ssa.Function // isBeforeSkipWindow
+	need    *ssa.Function // needCatchup: the (uint64) bool helper the gate consults directly
+	persist *ssa.Function // checkPersistSeqNo: the (uint64) bool helper polled in a loop by the gate or its wait helper
+	waitFn  *ssa.Function // when there is no such helper: the function under the gate whose sleeping loop tests the persistence condition in line
 	// fields by role (names are whatever the tree calls them today)
 	fClosed, fEndClosed, fPersist, fCatchNeed, fCatchSeq string
 }
